@@ -190,15 +190,21 @@ let dl_of_records (recs : string list list) : site -> bool =
       incr counter;
       if i < String.length !answers then !answers.[i] = '1' else raise (Oracle_miss "clock")
 
+(* oracle bookkeeping: compressor answers recorded by the implementation that the model never asked for *)
+let deflate_used : (string * string, unit) Hashtbl.t = Hashtbl.create 64
+let deflate_total = ref 0
 let env_of_records (recs : string list list) (dlf : site -> bool) : env =
   let dt = Hashtbl.create 64 and it = Hashtbl.create 16 and bt = Hashtbl.create 16 in
+  Hashtbl.reset deflate_used;
   List.iter (function
       | ["D"; d; x; y] -> Hashtbl.replace dt (d, x) y
       | ["I"; n; x; y] -> Hashtbl.replace it (n, x) y
       | ["B"; a; tok; types] -> Hashtbl.replace bt (a, tok) types
       | _ -> ()) recs;
+  deflate_total := Hashtbl.length dt;
   { z_deflate = (fun d x ->
         let k = (fmt_deflater d, hex x) in
+        Hashtbl.replace deflate_used k ();
         match Hashtbl.find_opt dt k with
         | Some "err" -> raise (Oracle_miss "deflate-err")
         | Some y -> unhex y
@@ -297,7 +303,11 @@ let run (t : string array) : string =
     let o = parse_opts t.(1) in
     let recs = split_records t 4 in
     let env = env_of_records recs (if t.(2) = "-" then (fun _ -> false) else dl_of_records recs) in
-    (try res_str hex (optimize_from_memory env o (unhex t.(3)))
+    (try
+       let r = res_str hex (optimize_from_memory env o (unhex t.(3))) in
+       (* compressions the implementation performed that the model never asked for (distinct inputs) *)
+       let unused = !deflate_total - Hashtbl.length deflate_used in
+       if unused > 0 && t.(2) = "-" then r ^ " #unused-deflate=" ^ string_of_int unused else r
      with Oracle_miss m -> "oracle-miss " ^ m)
   (* evalmodel <deflater-opts> <alpha> <final> <init|-> <filters> <order|-> <nimg> <img>... | records *)
   | "evalmodel" ->
